@@ -96,8 +96,8 @@ Theorem C10_sound_state_independent : forall (W : world) (rank : string -> nat),
   (forall n d, env_of W n = Some d -> no_context_reference d) ->
   forall (f f' : nat) (r r' X : string) (d : envdef) (s s' : st),
     env_of W X = Some d ->
-    alookup X (imps s) = None -> I1 s -> I2 (Sound W rank) s -> I3 rank s (S (rank X)) -> oof s = false ->
-    alookup X (imps s') = None -> I1 s' -> I2 (Sound W rank) s' -> I3 rank s' (S (rank X)) -> oof s' = false ->
+    alookup X (imps s) = None -> I1 s -> I2 W (Sound W rank) s -> I3 rank s (S (rank X)) -> oof s = false ->
+    alookup X (imps s') = None -> I1 s' -> I2 W (Sound W rank) s' -> I3 rank s' (S (rank X)) -> oof s' = false ->
     oof (snd (eval_env W f r X d s)) = false -> oof (snd (eval_env W f' r' X d s')) = false ->
     fst (eval_env W f r X d s) = fst (eval_env W f' r' X d s').
 Proof. exact sound_state_independent. Qed.
